@@ -393,7 +393,6 @@ func c16Report(res *vx.Result, st *c16Stats) {
 		checks = append(checks, c)
 	}
 	sort.Strings(checks)
-	res.Count("checks_with_fix_seen", int64(len(checks)))
 	if len(checks) > 0 {
 		res.Note("checks whose fixes were applied in this shard: %s", strings.Join(checks, " "))
 	}
